@@ -1,4 +1,5 @@
 import GroupbyVerif.Model.Kernels
+import GroupbyVerif.Model.Imp
 
 /-!
 # Row selection kernels: `_find_nth`, `_find_first_or_last_n`
@@ -9,9 +10,6 @@ wrap-around.
 -/
 
 namespace GV
-
-/-- two's-complement wrap to `w` bits -/
-def wrapS (w : Nat) (x : Int) : Int := (x + 2 ^ (w - 1)) % 2 ^ w - 2 ^ (w - 1)
 
 /-- per-group state of `_find_nth`: (out, seen, assertion failed) ; `out = -1` = not found -/
 structure NthSt where
